@@ -134,6 +134,15 @@ Theorem C20_consolidate_inplace_refuted : exists st pages i p d n,
 Proof. exact consolidate_inplace_refuted. Qed.
 Print Assumptions C20_consolidate_inplace_refuted.
 
+(* 7b. removeEmptyContentStreams (OptimizeDuplicateContentStreams): a /Contents array keeps
+      exactly the elements with non-empty decoded content -- one-byte elements (q, Q, newline)
+      included -- so the page's decoded content, the concatenation, is unchanged. *)
+Theorem C20_remove_empty_preserves_content : forall l,
+  pageContent (removeEmpty l) = pageContent l /\
+  forall c, In c (removeEmpty l) <-> In c l /\ c <> [].
+Proof. intro l. split. apply removeEmpty_content. apply removeEmpty_keeps. Qed.
+Print Assumptions C20_remove_empty_preserves_content.
+
 (* 8. "Optimizing an already optimized document removes nothing further", for the duplicate
       form pass (optimizeXObjectResource strips /PieceInfo, THEN optimizeXObjectForm compares
       with the cached forms): for every graph, limit and list of forms, running the pass on
